@@ -15,7 +15,9 @@ WORK = os.path.join(VERIF, ".work")
 EXTRACT = os.path.join(VERIF, "tools", "vx-extract", "target", "release", "vx-extract")
 UNITS = os.path.join(VERIF, "units")
 REPLAYS = os.path.join(VERIF, "replays")
-EVIDENCE = os.path.join(VERIF, "evidence")
+# VX_EVIDENCE_DIR: checks run against a deliberately changed tree (selftest / seeded changes) write their evidence elsewhere,
+# so that the committed /verif/evidence always describes the unchanged tree
+EVIDENCE = os.environ.get("VX_EVIDENCE_DIR") or os.path.join(VERIF, "evidence")
 KNOWN = os.path.join(VERIF, "known_findings.json")
 
 SPEC_KEYWORDS = ("requires", "ensures", "invariant", "invariant_except_break", "decreases", "recommends", "returns", "no_unwind", "opens_invariants")
